@@ -641,6 +641,12 @@ def check(model, rep, tier):
     decoder_clause(model, rep, funcs)
     rank_clause(model, rep, funcs)
     misc_clause(model, rep, funcs)
+    # every rotated candidate is the template rotated about its own centre, for one template and for a stack (rule shared with C01)
+    from .common import rotation_centre_obligations
+    f_bank = funcs.get(AB + "RotationImplemented._get_template_and_mask_input")
+    if f_bank is not None:
+        rotation_centre_obligations(model, rep, f_bank, "1 encoding")
+        rep.floor("A.centre", 1, "(the template bank rotates about (n-1)/2)")
     nf = 0
     for a in ("acryo/loader/_base.py::LoaderBase.align", "acryo/loader/_base.py::LoaderBase.align_no_template", "acryo/loader/_group.py::LoaderGroup.align"):
         try:
